@@ -29,17 +29,18 @@ Ltac c05_consts :=
 
 (* resolve every decision, innermost first: after [destruct] each branch whose new
    hypothesis Interval refutes is closed at once, so the work is linear in the number of [if]s *)
+Ltac c05_itv := first [ interval | interval with (i_prec 90) ].
 Ltac c05_kill H :=
   exfalso;
   lazymatch type of H with
-  | ~ (?a < ?b) => apply H; interval with (i_prec 90)
-  | ~ (?a > ?b) => apply H; interval with (i_prec 90)
-  | ~ (?a <= ?b) => apply H; interval with (i_prec 90)
-  | ~ (?a >= ?b) => apply H; interval with (i_prec 90)
-  | (?a < ?b) => apply (Rlt_not_le _ _ H); interval with (i_prec 90)
-  | (?a > ?b) => apply (Rlt_not_le _ _ H); interval with (i_prec 90)
-  | (?a <= ?b) => apply (Rle_not_lt _ _ H); interval with (i_prec 90)
-  | (?a >= ?b) => apply (Rle_not_lt _ _ (Rge_le _ _ H)); interval with (i_prec 90)
+  | ~ (?a < ?b) => apply H; c05_itv
+  | ~ (?a > ?b) => apply H; c05_itv
+  | ~ (?a <= ?b) => apply H; c05_itv
+  | ~ (?a >= ?b) => apply H; c05_itv
+  | (?a < ?b) => apply (Rlt_not_le _ _ H); c05_itv
+  | (?a > ?b) => apply (Rlt_not_le _ _ H); c05_itv
+  | (?a <= ?b) => apply (Rle_not_lt _ _ H); c05_itv
+  | (?a >= ?b) => apply (Rle_not_lt _ _ (Rge_le _ _ H)); c05_itv
   end.
 
 Ltac c05_split :=
@@ -53,7 +54,7 @@ Ltac c05_split :=
 
 Ltac c05_cert :=
   c05_consts; cbv zeta; unfold Rmax, Rmin, Rpower; c05_split;
-  interval with (i_prec 90).
+  first [ interval | interval with (i_prec 90) ].
 
 (* value of the triangular response at a bin through the all-bins theorem *)
 Ltac c05_tri :=
